@@ -140,6 +140,21 @@ def generic_elimination(rep: Report, prog: Program) -> None:
     loops = [l for l in own_nodes(f.node) if isinstance(l, ast.For) and isinstance(l.iter, ast.Call) and callee_last(l.iter) == 'range']
     ok = any(len(l.iter.args) == 1 and norm(l.iter.args[0]).endswith('.shape[0]') for l in loops)
     rep.ob(rule, f.fq(), 'every pivot is eliminated: for k in range(a.shape[0])', f.loc(), ok, '' if ok else f"pivot loop ranges over {[norm(l.iter) for l in loops]}")
+    # the right-hand side is updated in every pivot step, whatever its rank: on each path of an iteration x += a[:,k] * x[k]
+    fcfg = cfg_of(f)
+    xname = None
+    for n_ in own_nodes(f.node):
+        if isinstance(n_, ast.Assign) and isinstance(n_.value, ast.Call) and isinstance(n_.value.func, ast.Name) and n_.value.func.id == thunks[1] and isinstance(n_.targets[0], ast.Name):
+            xname = n_.targets[0].id
+    for l in loops:
+        hdr = fcfg.node_of(l)
+        be = [b for b, lab in fcfg.succ[hdr] if lab == 'iter'][0]
+        upd = lambda m: fcfg.nodes[m].kind == 'stmt' and any(isinstance(c, ast.Call) and callee_last(c) in ('add_', 'add') and c.args and norm(c.args[0]) == xname for c in ast.walk(fcfg.nodes[m].stmt)) \
+            or (fcfg.nodes[m].kind == 'stmt' and isinstance(fcfg.nodes[m].stmt, (ast.Assign, ast.AugAssign)) and xname in {norm(t) for t in ([fcfg.nodes[m].stmt.target] if isinstance(fcfg.nodes[m].stmt, ast.AugAssign) else fcfg.nodes[m].stmt.targets)})
+        okp, wit = fcfg.all_paths_pass(be, upd, targets={hdr, fcfg.exit})
+        rep.ob(rule, f.fq(), f"for {norm(l.target)} in {norm(l.iter)}: `{xname}` is updated in every pivot step", f.loc(l), okp and xname is not None,
+               'x += a[:,k] * x[k] on every path of the iteration' if okp else
+               'an iteration can finish without substituting x[k] into the other rows (a right-hand side of a rank no branch handles is returned unchanged): ' + ' -> '.join(fcfg.describe(w).split(':', 1)[0] for w in (wit or [])[-4:]))
     for l in loops:
         k = norm(l.target)
         first = l.body[0] if l.body else None
